@@ -154,6 +154,36 @@ def rdata_plain(layout, ty: int, data: bytes) -> bool:
     return True
 
 
+def rfc_layout():
+    """the RFC layouts (RFC_LAYOUT below) in the NAME/CSTR/int form of `rdata_plain` — independent of the tree under test"""
+    conv = {"N": NAME, "S": CSTR}
+    return {ty: tuple(conv[f] if f in conv else _FIXED[f] for f in lay) for ty, lay in RFC_LAYOUT.items()}
+
+
+def rdata_class(layout, ty: int, data: bytes) -> str:
+    """how the RFC layout of `ty` reads `data` taken on its own:
+    'opaque'   the type holds no domain name
+    'ptr'      a name field is reached and holds a compression pointer (data is not in uncompressed form)
+    'fallback' the data does not match the layout and the unmatched rest holds a byte >= 0xC0 that is not its last byte
+               (the class of findings F-C25a/F-C25b: the heuristic expansion may rewrite it)
+    'plain'    everything else"""
+    if ty not in layout: return "opaque"
+    rd = data
+    for f in layout[ty]:
+        if f == NAME:
+            r = plain_name(rd)
+            if r == "stop": return "plain" if heur_inert(rd) else "fallback"
+            if r == "ptr": return "ptr"
+            rd = rd[r:]
+        else:
+            if f == CSTR:
+                if not rd: return "plain"
+                f = 1 + rd[0]
+            if len(rd) < f: return "plain" if heur_inert(rd) else "fallback"
+            rd = rd[f:]
+    return "plain"
+
+
 def canonical_name(name: str) -> bool:
     """IDNA-canonical: every part is a fixed point of decode∘encode and fits a label"""
     if name == "": return True
